@@ -630,10 +630,13 @@ pub fn run_c03(run: &mut Run) -> Stats {
     // (e) many specs: n small satisfiable ranges (n up to 40), with one unsatisfiable / suffix /
     // open spec at each position
     for l in [5000u64, 1 << 33, u64::MAX] {
-        for n in [4usize, 5, 6, 8, 9, 12, 17, 40] {
+        for n in [4usize, 5, 6, 8, 9, 12, 17, 40, 64, 65, 130, 300] {
+            if n > 40 && l == 5000 {
+                continue; // 10 * n would leave the entity
+            }
             let base: Vec<String> = (0..n as u64).map(|k| format!("{}-{}", 10 * k, 10 * k + (k % 2))).collect();
             headers.push((l, format!("bytes={}", base.join(","))));
-            for pos in 0..n {
+            for pos in (0..n).step_by(if n > 40 { 13 } else { 1 }) {
                 for odd in [format!("{l}-"), "-3".to_string(), format!("{}-", l - 2), "7-6".to_string()] {
                     let mut v = base.clone();
                     v[pos] = odd;
@@ -667,18 +670,25 @@ pub fn run_c03(run: &mut Run) -> Stats {
     }
     headers.sort_by_key(|(l, h)| (h.len(), *l, h.clone()));
     headers.dedup();
-    run.rule = "GET with only a Range header: (a) every 1- and 2-spec set over positions 0..=L+2 for L in {1,2,3,10}; (b) 1..n-spec sets over {0,1,L-1,L,L+1,2^32,2^63,2^64-2,2^64-1,2^64} for large L; (c) 2- and 3-range sets whose sizes put sum(len+80) on L/2-1,L/2,L/2+1,L-1,L and sum(len) on L-1,L,L+1; (d) other units and out-of-grammar values; separators ',' ', ' ',\\t '. Oracle: u128 reference resolver -> set of admissible (status, ranges); single chunk per get_range. non-trivial = distinct (L, Range value)".into();
+    run.rule = "GET with only a Range header: (a) every 1- and 2-spec set over positions 0..=L+2 for L in {1,2,3,10}; (b) 1..n-spec sets over {0,1,L-1,L,L+1,2^32,2^63,2^64-2,2^64-1,2^64} for large L; (c) 2- and 3-range sets whose sizes put sum(len+80) on L/2-1,L/2,L/2+1,L-1,L and sum(len) on L-1,L,L+1; (d) other units and out-of-grammar values; separators ',' ', ' ',\\t '; multi-spec values against entities with each of the entity header sets (none .. 200-byte values, repeated names). Oracle: u128 reference resolver -> set of admissible (status, ranges); single chunk per get_range. non-trivial = distinct (L, Range value)".into();
     run.bounds = json!({"headers": headers.len(), "max_specs": n_max});
     let ev = Eval { prop: &run.prop.clone(), extra_polls: 1 };
     run.extra.insert("range_values".into(), json!(headers.len()));
+    let hsets = gen::header_sets();
     par_for(headers.len() as u64, threads(), |i, st| {
         let (l, h) = &headers[i as usize];
         let req = Req::new("GET").with("range", h.as_bytes());
-        let e = ent(*l, Some(b"\"v1\""), None, vec![], vec![]);
-        if let Some((obs, m)) = ev.run(&req, &e, st, i) {
-            st.nontrivial(&(l, h));
-            st.count(&format!("model:{}", m.shapes.iter().map(|s| s.class()).collect::<Vec<_>>().join("|")), 1);
-            st.sample(3, || json!({"L": l.to_string(), "range": h, "admissible": format!("{:?}", m.shapes), "status": obs.status, "content_range": obs.hdr("content-range").map(|c| String::from_utf8_lossy(c).to_string())}));
+        // The decision between multipart and the complete 200 is stated in terms of the ranges
+        // and the entity length alone: multi-spec requests are repeated against entities that
+        // supply headers of their own (which a multipart body repeats in every part).
+        let nsets = if h.contains(',') { hsets.len() } else { 1 };
+        for (hi, hset) in hsets.iter().take(nsets).enumerate() {
+            let e = ent(*l, Some(b"\"v1\""), None, hset.clone(), vec![]);
+            if let Some((obs, m)) = ev.run(&req, &e, st, (i << 4) | hi as u64) {
+                st.nontrivial(&(l, h, hi));
+                st.count(&format!("model:{}", m.shapes.iter().map(|s| s.class()).collect::<Vec<_>>().join("|")), 1);
+                st.sample(3, || json!({"L": l.to_string(), "range": h, "entity_header_set": hi, "admissible": format!("{:?}", m.shapes), "status": obs.status, "content_range": obs.hdr("content-range").map(|c| String::from_utf8_lossy(c).to_string())}));
+            }
         }
     })
 }
@@ -740,6 +750,9 @@ pub fn run_c04(run: &mut Run) -> Stats {
     let small = tag_lists(kb, &seps);
     let etags = gen::etags();
     let mtimes: Vec<Option<std::time::SystemTime>> = vec![None, Some(gen::t(gen::LM, 0)), Some(gen::t(gen::LM, 1_000_000)), Some(gen::t(gen::LM, 999_999_999))];
+    // the linear date family also uses modification times at and just after the epoch
+    let mut mtimes_odd = mtimes.clone();
+    mtimes_odd.extend([Some(gen::t(0, 0)), Some(gen::t(0, 500_000_000)), Some(gen::t(1, 0)), Some(gen::t(4_102_444_800, 5))]);
     let mut dates: Vec<Option<Vec<u8>>> = vec![None, Some(fmt_imf(gen::LM - 1).into_bytes()), Some(fmt_imf(gen::LM).into_bytes()), Some(fmt_imf(gen::LM + 1).into_bytes())];
     if tier == Tier::Thorough {
         // obsolete spellings: one value of each (the three relations are covered by IMF-fixdate)
@@ -761,7 +774,7 @@ pub fn run_c04(run: &mut Run) -> Stats {
             }
         }
     }
-    run.rule = format!("full categorical product: entity etag {{absent, strong, weak, strong containing ', '}} x mtime {{absent, whole second, +1ms, +999999999ns}} x If-Match x If-None-Match (absent, *, every list of 1..k tags over {{same strong, same weak, other strong, other weak, \"a, b\"}} with separators ',' ', ' ',\\t'; k=({ka},{kb}) and ({kb},{ka})) x If-Modified-Since x If-Unmodified-Since {{absent, LM-1s, LM, LM+1s{}}} x GET/HEAD; plus a linear date family (one date header in RFC 850 / asctime spelling for LM-1/LM/LM+1, or at the epoch, in 2100, in 9999 or 400 days after the run, the other date header in {{absent, LM-1, LM+1}}, tag lists of <= 1 element); oracle = straight-line RFC 7232 s.6 evaluation. non-trivial = distinct (entity validators, four header values, method) with at least one conditional header", if tier == Tier::Thorough { "; also RFC 850 and asctime spellings" } else { "" });
+    run.rule = format!("full categorical product: entity etag {{absent, strong, weak, strong containing ', '}} x mtime {{absent, whole second, +1ms, +999999999ns}} x If-Match x If-None-Match (absent, *, every list of 1..k tags over {{same strong, same weak, other strong, other weak, \"a, b\"}} with separators ',' ', ' ',\\t'; k=({ka},{kb}) and ({kb},{ka})) x If-Modified-Since x If-Unmodified-Since {{absent, LM-1s, LM, LM+1s{}}} x GET/HEAD; plus a linear date family (one date header in RFC 850 / asctime spelling for LM-1/LM/LM+1, or at the epoch, in 2100, in 9999 or 400 days after the run, the other date header in {{absent, LM-1, LM+1}}, tag lists of <= 1 element) and a linear tag family (the entity's tag one of 12 unusual tags -- empty, with comma / semicolon / '*' / backslash / obs-text, 300 bytes, weak -- against lists that contain it alone, first, last, between others, in the other strength, or not at all); oracle = straight-line RFC 7232 s.6 evaluation. non-trivial = distinct (entity validators, four header values, method) with at least one conditional header", if tier == Tier::Thorough { "; also RFC 850 and asctime spellings" } else { "" });
     run.bounds = json!({"big_lists": big.len(), "small_lists": small.len(), "dates": dates.len()});
     let ev = Eval { prop: &run.prop.clone(), extra_polls: 1 };
     // Linear family: other spellings and other magnitudes of the two dates. Each of the three
@@ -781,7 +794,7 @@ pub fn run_c04(run: &mut Run) -> Stats {
     let tiny = tag_lists(1, &seps);
     let mut outer2 = Vec::new();
     for e in &etags {
-        for mt in &mtimes {
+        for mt in &mtimes_odd {
             for od in &odd_dates {
                 for other in [None, Some(fmt_imf(gen::LM - 1).into_bytes()), Some(fmt_imf(gen::LM + 1).into_bytes())] {
                     for odd_is_ims in [true, false] {
@@ -813,6 +826,49 @@ pub fn run_c04(run: &mut Run) -> Stats {
         }
     });
     run.bounds["odd_dates"] = json!(odd_dates.iter().map(|d| String::from_utf8_lossy(d).to_string()).collect::<Vec<_>>());
+    // Linear family: unusual entity tags (empty, with comma / semicolon / '*' / backslash /
+    // obs-text, 300 bytes; strong and weak) as the entity's tag, against lists that contain that
+    // very tag -- alone, first, last, in the other strength -- or do not.
+    let rich = gen::etags_rich();
+    let st3 = par_for(rich.len() as u64, threads(), |i, st| {
+        let Some(tag) = rich[i as usize].clone() else { return };
+        let opaque: Vec<u8> = tag.strip_prefix(b"W/").unwrap_or(&tag).to_vec();
+        let mut weak = b"W/".to_vec();
+        weak.extend_from_slice(&opaque);
+        let join = |a: &[u8], b: &[u8], sep: &[u8]| -> Vec<u8> { [a, sep, b].concat() };
+        let mut lists: Vec<Vec<u8>> = vec![tag.clone(), opaque.clone(), weak.clone(), b"\"zz\"".to_vec()];
+        for other in [&b"\"zz\""[..], b"W/\"zz\"", b"\"\"", b"\"a, b\""] {
+            for sep in [&b","[..], b", "] {
+                lists.push(join(&tag, other, sep));
+                lists.push(join(other, &tag, sep));
+                lists.push(join(other, &weak, sep));
+                lists.push(join(&join(other, &opaque, sep), other, sep));
+            }
+        }
+        lists.sort();
+        lists.dedup();
+        let mut order = (1u64 << 59) | (i << 20);
+        for mt in [None, Some(gen::t(gen::LM, 0))] {
+            let entity = ent(10, Some(&tag), mt, vec![], vec![]);
+            for me in ["GET", "HEAD"] {
+                for (hdr, other_hdr) in [("if-match", "if-none-match"), ("if-none-match", "if-match")] {
+                    for l in &lists {
+                        for other in [None, Some(&lists[0])] {
+                            let mut req = Req::new(me).with(hdr, l);
+                            if let Some(o) = other {
+                                req = req.with(other_hdr, o);
+                            }
+                            order += 1;
+                            if let Some((_, m)) = ev.run(&req, &entity, st, order) {
+                                st.nontrivial(&(&req, ent_key(&entity)));
+                                st.count(&format!("tag-family-verdict:{:?}", m.cond), 1);
+                            }
+                        }
+                    }
+                }
+            }
+        }
+    });
     let mut total = par_for(outer.len() as u64, threads(), |i, st| {
         let (e, mt, ims, ius, me, big_is_im) = &outer[i as usize];
         let entity = ent(10, e.as_deref(), *mt, vec![], vec![]);
@@ -844,6 +900,7 @@ pub fn run_c04(run: &mut Run) -> Stats {
         }
     });
     total.merge(st2);
+    total.merge(st3);
     total
 }
 
@@ -1080,6 +1137,8 @@ pub fn run_c06(run: &mut Run) -> Stats {
 pub fn fault_space(tier: Tier) -> Vec<(&'static str, u64, usize, usize)> {
     // (shape, range length, number of parts, faulty part)
     let mut v = Vec::new();
+    // an EMPTY entity (200 with Content-Length: 0): its stream may still fail or be too long
+    v.push(("full", 0, 1, 0));
     for n in [1u64, 2, 3, 5] {
         v.push(("full", n, 1, 0));
         v.push(("single", n, 1, 0));
@@ -1216,6 +1275,11 @@ pub fn run_c13(run: &mut Run) -> Stats {
         specials.push((0, format!("bytes=0-{},{}-{}", l - w, l - 1, l - 1).into_bytes()));
         specials.push((0, format!("bytes=0-{},{}-{},5-5", l - w - 100, l - 2, l - 1).into_bytes()));
         specials.push((0, format!("bytes=0-{},{}-", (1u64 << 63) - w, (1u64 << 63) - 1).into_bytes()));
+    }
+    for n in [17u64, 64, 65, 100, 257, 1000] {
+        specials.push((0, format!("bytes={}", (0..n).map(|k| format!("{}-{}", 3 * k, 3 * k + 1)).collect::<Vec<_>>().join(",")).into_bytes()));
+        specials.push((0, format!("bytes={}", (0..n).map(|k| format!("{k}-")).collect::<Vec<_>>().join(", ")).into_bytes()));
+        specials.push((0, format!("bytes={}", vec!["-1"; n as usize].join(",")).into_bytes()));
     }
     for g in ["bytes=0-1 ,2-3", "bytes= 0-1", "bytes=,0-1", "bytes=0-1,", "Bytes=0-1", "bytes=0-1,,2-3", "bytes=\u{7f}"] {
         if http::HeaderValue::from_bytes(g.as_bytes()).is_ok() {
@@ -1367,11 +1431,11 @@ pub fn run_c14(run: &mut Run) -> Stats {
             }
         }
     }
-    run.rule = "all two-request histories: request 1 in {GET, GET+satisfiable Range, GET+If-None-Match miss, unsatisfiable Range (416), failing If-Match (412), If-None-Match hit (304), multi-range}; request 2 = GET/HEAD echoing every subset of {If-None-Match: <served ETag>, If-Modified-Since: <served Last-Modified>, If-Match: <served ETag>, If-Unmodified-Since: <served Last-Modified>, If-Range: <served ETag> + Range} (32 subsets), built from the bytes actually served; x etag {absent, strong, weak; tags containing comma, semicolon, '*', 'W/', backslash, obs-text, the empty tag, a 300-byte tag} x mtime {absent, epoch, whole second, +1ms, +1ns, +999999999ns, now+1day} x entity header sets {none, 1, 2, 3, Latin-1 values, repeated field names}. Oracle step 1: Accept-Ranges, ETag byte-equal, Date/Last-Modified parseable with LM <= Date and LM == floor(mtime) for past mtimes, entity headers present on 200/206-without-If-Range and absent on 304/412/416. Step 2: outcome derived from the echoed subset alone. non-trivial = distinct (entity, first request, echoed subset, method)".into();
+    run.rule = "all two-request histories: request 1 in {GET, GET+satisfiable Range, GET+If-None-Match miss, unsatisfiable Range (416), failing If-Match (412), If-None-Match hit (304), multi-range}; request 2 = GET/HEAD echoing every subset of {If-None-Match: <served ETag>, If-Modified-Since: <served Last-Modified>, If-Match: <served ETag>, If-Unmodified-Since: <served Last-Modified>, If-Range: <served ETag> + Range} (32 subsets), built from the bytes actually served; x etag {absent, strong, weak; tags containing comma, semicolon, '*', 'W/', backslash, obs-text, the empty tag, a 300-byte tag} x mtime {absent, epoch, whole second, +1ms, +1ns, +999999999ns, now+1day} x entity header sets {none, 1, 2, 3, Latin-1 values, repeated field names}. Oracle step 1: Accept-Ranges, ETag byte-equal, Date/Last-Modified parseable with LM <= Date and LM == floor(mtime) for past mtimes, entity headers present on 200/206-without-If-Range and absent on 304/412/416. Step 2: outcome derived from the echoed subset alone. Supplement (time sampling, not exhaustive): three requests every 2 ms for 2.3 s on one thread (entities modified tomorrow / just now / long ago), single-response oracle. non-trivial = distinct (entity, first request, echoed subset, method)".into();
     run.bounds = json!({"etag": etags.len(), "mtime": 7, "header_sets": hsets.len(), "first_requests": firsts.len(), "echo_subsets": 32});
     run.assumptions.push("SystemTime::now() is not controlled: past mtimes are decades old, the future one is a day ahead, so no verdict depends on when the two calls happen".into());
     let ev = Eval { prop: &run.prop.clone(), extra_polls: 1 };
-    par_for(outer.len() as u64, threads(), |i, st| {
+    let mut total = par_for(outer.len() as u64, threads(), |i, st| {
         let (ei, mi, hi, fi) = outer[i as usize];
         let is_future = mi == past.len();
         let mt = if is_future { Some(gen::future()) } else { past[mi] };
@@ -1469,7 +1533,39 @@ pub fn run_c14(run: &mut Run) -> Stats {
             }
             }
         }
-    })
+    });
+    // Time sampling (NOT exhaustive -- the wall clock is the one input the harness does not own):
+    // the same three requests every 2 ms for 2.3 s on one fresh thread, so that every phase of a
+    // wall-clock second and at least two second boundaries are crossed by consecutive requests.
+    // Entities: modified one day in the future, "just now" (the instant of the request), and long
+    // ago. Judged by the single-response oracle (Last-Modified <= Date, ...).
+    let mut ts = Stats::new();
+    {
+        let st = &mut ts;
+        let evr = &ev;
+        on_fresh_thread(move || {
+            let t0 = std::time::Instant::now();
+            let mut k = 0u64;
+            while t0.elapsed() < std::time::Duration::from_millis(2300) {
+                for which in 0..3 {
+                    let mt = match which {
+                        0 => gen::future(),
+                        1 => std::time::SystemTime::now(),
+                        _ => gen::t(gen::LM, 250_000_000),
+                    };
+                    let e = ent(1000, Some(b"\"v1\""), Some(mt), vec![], vec![]);
+                    k += 1;
+                    if evr.run(&Req::new("GET"), &e, st, (1 << 62) + k).is_some() {
+                        st.count("time_sampled_requests", 1);
+                    }
+                }
+                std::thread::sleep(std::time::Duration::from_millis(2));
+            }
+        });
+    }
+    run.extra.insert("time_sampled_requests_not_exhaustive".into(), json!(ts.evaluations));
+    total.merge(ts);
+    total
 }
 
 // -------------------------------------------------------------------------------------------
@@ -1528,7 +1624,13 @@ pub fn run_c15_serve(run: &mut Run) -> Stats {
                 if ifr {
                     r = r.with("if-range", b"\"v1\"");
                 }
-                extra.push((r, ent(l, Some(b"\"v1\""), None, gen::header_sets()[1].clone(), vec![])));
+                // every entity header set (repeated names, long / Latin-1 / padded values) for
+                // L = 2000, the plain one elsewhere
+                let sets = gen::header_sets();
+                let n = if l == 2000 { sets.len() } else { 2 };
+                for hs in sets.into_iter().take(n).skip(1) {
+                    extra.push((r.clone(), ent(l, Some(b"\"v1\""), None, hs, vec![])));
+                }
             }
         }
     }
@@ -1706,6 +1808,12 @@ pub fn run_c12_serve(run: &mut Run) -> Stats {
     // ... C06 space ...
     let mut r2 = Run::new(&run.prop, "serve_mc", tier);
     st.merge(run_c06(&mut r2));
+    // ... the fault space (C07): judged here only for the end-of-stream flag of bodies whose
+    // entity stream reports a failure of its own ...
+    let mut rf = Run::new(&run.prop, "serve_mc", tier);
+    let sf = run_faults(&mut rf, 4, false);
+    run.extra.insert("fault_space_executions".into(), json!(sf.evaluations));
+    st.merge(sf);
     // ... and the conversions.
     let mut s3 = Stats::new();
     body_from_cases(&run.prop, &mut s3);
@@ -1721,7 +1829,7 @@ pub fn run_c12_serve(run: &mut Run) -> Stats {
     run.extra.insert("concurrent_schedules".into(), json!(s5.evaluations));
     run.extra.insert("concurrent_families".into(), fam);
     st.merge(s5);
-    run.rule = "monitor (size_hint lower/upper, is_end_stream sampled before every poll) on every execution of: the C01 space (all requests x chunkings), the C06 multipart space, every Body::from / Body::empty conversion over lengths {0,1,5}, and the C08/C09/C11 streaming history sweeps (raw and gzip writers, with abort and body drop). Retrospective oracle per sample: lower <= bytes delivered afterwards <= upper on a clean end; exact hint for serve / Body::from bodies; is_end_stream true => no later bytes and no later error. non-trivial = distinct (case, chunking) or (config, history)".into();
+    run.rule = "monitor (size_hint lower/upper, is_end_stream sampled before every poll) on every execution of: the C01 space (all requests x chunkings), the C06 multipart space, every Body::from / Body::empty conversion over lengths {0,1,5}, and the C08/C09/C11 streaming history sweeps (raw and gzip writers, with abort and body drop). Retrospective oracle per sample: lower <= bytes delivered afterwards <= upper on a clean end; exact hint for serve / Body::from bodies; is_end_stream true => no later bytes and no later error (this clause also on every body of the C07 fault space whose entity stream fails with an error of its own, including streams that go on after that error). non-trivial = distinct (case, chunking) or (config, history)".into();
     run.bounds = json!({"serve": "as C01 and C06", "streaming": "as C08/C11 one level shallower"});
     st
 }
